@@ -35,7 +35,7 @@ let statics = [|
   z ("-1" ^ String.make 176 '0' ^ "0000000000000001") |]
 let static k = statics.(if k > 6 then 6 else k)
 
-let huge_bits = 1 lsl 44   (* bit counts from here on ask for more than 2^40 bytes *)
+let huge_bits = 1 lsl 34   (* bit counts from here on ask for more than 2^30 bytes: the harness' allocator refuses *)
 exception Pre
 exception Perr
 exception Pan of string
